@@ -24,7 +24,7 @@ META = {
     "require": {t: ["mode:serial", "mode:real", "mode:controlled", "plan:empty", "plan:singleton", "plan:multi",
                     "k=1", "k>=12", "cube:ccube", "cube:xcube", "followup:compared", "raised:identity_checked",
                     "interrupt_class:RuntimeError", "interrupt_class:TimeoutError", "interrupt_class:KeyError",
-                    "k>1024", "callback:class_level", "callback:callable_object_empty_container", "callback:bound_method"]
+                    "k>1024", "callback:class_level", "callback:callable_object_empty_container", "callback:bound_method", "followup:pooled", "cube:shallow_copy_of_the_configured_cube"]
                 for t in ("quick", "thorough")},
     "exhaustive": {t: "every singleton fault plan (every cancellation point) of every generated cube, in each mode"
                    for t in ("quick", "thorough")},
@@ -181,6 +181,12 @@ def run_plan(ctx, case, mode, plan, seed, fresh_ref, feat):
         cube.check_interrupt = _CallableList(callback)
     else:
         cube.check_interrupt = callback
+    if form != "class_level" and seed % 5 == 2:
+        # the configured cube is duplicated (copy.copy / a pickle-free deepcopy of the shell) and the duplicate is evaluated
+        import copy
+
+        cube = copy.copy(cube)
+        ctx.count("cube:shallow_copy_of_the_configured_cube")
     base_threads = threading.active_count()
     factory = None
     if mode == "controlled":
@@ -252,13 +258,17 @@ def run_plan(ctx, case, mode, plan, seed, fresh_ref, feat):
     # a following fault-free calculate on the same objects equals a fresh evaluation
     quiesced = threading.active_count() <= base_threads
     calls2 = []
-    if "check_interrupt" not in vars(cube):
-        cube.__class__.check_interrupt = staticmethod(lambda: calls2.append(1))
+    if form == "class_level":
+        # (the subclass that was made for this very cube, never the library's class)
+        type(cube).check_interrupt = staticmethod(lambda: calls2.append(1))
     else:
         cube.check_interrupt = lambda: calls2.append(1)
-    cube.parallel = False
+    # the follow-up runs serially, or - every second time after a pooled run - with the real pool again
+    follow_pooled = mode != "serial" and seed % 2 == 0
+    cube.parallel = follow_pooled
     got = pooled.result_bytes(cube.calculate(funcs))
     ctx.count("followup:compared")
+    ctx.count("followup:pooled" if follow_pooled else "followup:serial")
     if got != fresh_ref:
         ctx.violation("followup-differs:" + key,
                       "after the interrupted call (plan %r) a fault-free calculate on the same cube and aggregate objects differs "
